@@ -50,12 +50,20 @@ def _keywords_of(prog, call):
                 defs = [n for n in ast.walk(b[1]) if isinstance(n, ast.Assign) and any(isinstance(t, ast.Name) and t.id == v.id for t in n.targets)]
                 if len(defs) == 1:
                     v = defs[0].value
+        if isinstance(v, ast.Call) and isinstance(v.func, ast.Name) and v.func.id == "dict" and len(v.args) == 1 and isinstance(v.args[0], ast.Name):
+            # a copy of a constant table: `options = dict(_OPTIONS)`
+            b = prog.lookup(v.args[0].id, call)
+            extra = {kw.arg: kw.value for kw in v.keywords if kw.arg}
+            v = b[2] if b[0] == "value" else v
+            out.update(extra)
         if isinstance(v, ast.Dict):
             for kk, vv in zip(v.keys, v.values):
                 if isinstance(kk, ast.Constant) and isinstance(kk.value, str):
-                    out[kk.value] = vv
+                    out.setdefault(kk.value, vv)
         elif isinstance(v, ast.Call) and isinstance(v.func, ast.Name) and v.func.id == "dict" and not v.args:
-            out.update({kw.arg: kw.value for kw in v.keywords if kw.arg})
+            for kw in v.keywords:
+                if kw.arg:
+                    out.setdefault(kw.arg, kw.value)
     return out
 
 
@@ -82,6 +90,18 @@ def wrap_chain(prog, e, at, depth=0):
         b = prog.lookup(e.id, at)
         if b[0] == "ext":
             return [(b[1], {}, None)] if b[1] in WRAP_EXT else []
+        if b[0] == "func" and isinstance(b[1].node, ast.FunctionDef) and b[1].params():
+            # a package function that hands its first parameter to a wrapper and returns the result is a wrapper itself
+            f0 = b[1]
+            p0 = f0.params()[0]
+            out = []
+            for r in ast.walk(f0.node):
+                if isinstance(r, ast.Return) and isinstance(r.value, ast.Call) and r.value.args and isinstance(r.value.args[0], ast.Name) and r.value.args[0].id == p0:
+                    for n_, kw_, o_ in wrap_chain(prog, r.value.func, r.value, depth + 1):
+                        kw2 = dict(kw_)
+                        kw2.update(_keywords_of(prog, r.value))
+                        out.append((n_, kw2, o_ or (f0.qualname, f0.node)))
+            return out
         if b[0] == "value":
             sub = wrap_chain(prog, b[2], b[2], depth + 1)
             return [(n, kw, o or ("%s.%s" % (b[1].name, _binding_name(b[1], b[2])), b[2])) for n, kw, o in sub]
@@ -107,6 +127,10 @@ def wrap_sites(prog):
             if not isinstance(c, ast.Call):
                 continue
             ch = wrap_chain(prog, c.func, c)
+            if ch and isinstance(getattr(c, "_parent", None), ast.Return) and c.args and isinstance(c.args[0], ast.Name):
+                fn_ = enclosing_fn(c)
+                if fn_ is not None and fn_.params() and fn_.params()[0] == c.args[0].id:
+                    continue  # the body of a wrapper function (`def fill(text, ..): return textwrap.fill(text, ..)`): judged where that function is applied
             if ch:
                 alts = []
                 for name, kw, origin in ch:
@@ -393,19 +417,24 @@ def rule_wrap_cont(prog, rep, tier):
 def _line_vars(code_nodes):
     """names that hold one line (or something derived from lines) inside the un-wrapping code"""
     tainted = set()
+    lam_params = set()
     for cd in code_nodes:
         for n in ast.walk(cd):
             if isinstance(n, ast.comprehension) and any(_is_line_split(x) for x in ast.walk(n.iter)):
                 tainted |= names_in(n.target)
             elif isinstance(n, ast.For) and any(_is_line_split(x) for x in ast.walk(n.iter)):
                 tainted |= names_in(n.target)
-            elif isinstance(n, ast.Call) and isinstance(n.func, ast.Name) and n.func.id in ("map", "filter") and len(n.args) == 2 \
-                    and any(_is_line_split(x) for x in ast.walk(n.args[1])) and isinstance(n.args[0], ast.Lambda):
-                tainted |= {a.arg for a in n.args[0].args.args}
+            elif isinstance(n, ast.Call) and any(isinstance(a, ast.Lambda) for a in n.args) \
+                    and any(_is_line_split(x) for a in n.args if not isinstance(a, ast.Lambda) for x in ast.walk(a)):
+                # map / filter / reduce / sorted(key=..) over the lines: the callable's parameters are lines (or what was built from them)
+                for a in n.args:
+                    if isinstance(a, ast.Lambda):
+                        tainted |= {x.arg for x in a.args.args}
+                        lam_params |= {x.arg for x in a.args.args}
             elif isinstance(n, ast.Assign) and any(_is_line_split(x) for x in ast.walk(n.value)):
                 for t in n.targets:
                     tainted |= names_in(t)
-    direct = set()
+    direct = set(lam_params)
     for cd in code_nodes:
         for n in ast.walk(cd):
             if isinstance(n, (ast.For, ast.comprehension)) and (any(_is_line_split(x) for x in ast.walk(n.iter)) or names_in(n.iter) & tainted):
@@ -434,11 +463,36 @@ def _is_blank_test(t, line_names):
         and t.func.value.id in line_names and not t.args
 
 
-def rule_rejoin_uniform(prog, rep, tier):
-    """REJOIN-UNIFORM: the reader puts wrapped lines back together the same way at every line boundary."""
+def _blank_joins_of_lines(fn_node):
+    """`<blank>.join(<lines of X>)` expressions: (node, X) with X the text that is split into lines"""
+    out = []
+    for n in ast.walk(fn_node):
+        if isinstance(n, ast.Call) and isinstance(n.func, ast.Attribute) and n.func.attr == "join" and isinstance(n.func.value, ast.Constant) \
+                and isinstance(n.func.value.value, str) and n.func.value.value.strip(" ") == "" and n.func.value.value != "" and n.args:
+            for x in ast.walk(n.args[0]):
+                if _is_line_split(x) and isinstance(x.func, ast.Attribute) and x.func.attr in ("split", "splitlines") and (x.args or x.func.attr == "splitlines"):
+                    out.append((n, x.func.value))
+    return out
+
+
+def rule_rejoin_uniform(prog, rep, tier, entry="docstring_parsers.parse_docstring"):
+    """REJOIN-UNIFORM: the reader puts wrapped lines back together the same way at every line boundary - and only the lines of
+    a description: a line break inside a default value or a type is content, not layout."""
     us = unwrap_sites(prog)
     if not us:
         raise AnalysisError("REJOIN-UNIFORM: the reader's re-join of wrapped lines was not found")
+    # REJOIN (scope): on the reader's path a blank-join of lines is applied to prose only
+    if prog.has_fn(entry):
+        for f in prog.reachable([prog.fn(entry)]):
+            if f.parent_fn is not None:
+                continue
+            for n, x in _blank_joins_of_lines(f.node):
+                keys = [c.slice.value for c in ast.walk(x) if isinstance(c, ast.Subscript) and isinstance(c.slice, ast.Constant) and isinstance(c.slice.value, str)]
+                if keys and keys[-1] in ("default", "typ"):
+                    rep.violation(Finding(
+                        "REJOIN-UNIFORM", prog.owner_name(f), "rejoin-of-value:%s" % keys[-1],
+                        "the lines of a %s are re-joined with a blank (%s): a line break inside a value is content (end='\\n', a multi-line header), and this code also sees the "
+                        "defaults taken from a signature" % ("default value" if keys[-1] == "default" else "type", src(n, 60)), loc(prog, n)))
     for fi, cond, branch, code in us:
         where = prog.owner_name(fi)
         tainted, line_names = _line_vars(code)
